@@ -2,7 +2,9 @@ package props
 
 import (
 	"bytes"
+	"fmt"
 	"math/big"
+	"sync"
 
 	"github.com/DOSNetwork/core/sign/bls"
 	"github.com/dedis/kyber"
@@ -327,6 +329,69 @@ func genC06(rng *hx.Rng, tier string, w *hx.Writer) error {
 			oracle = hx.Fail("verify-differs-from-evm", "one key object, verifications of (valid, valid, negated, valid) and then the key's encoding compared with what it was: got "+seq+", want accept, accept, reject, accept, unchanged")
 		}
 		w.Put(hx.Case{Entry: "-", Op: 0, Args: hx.L(hx.Z(x), hx.B(msg)), Impl: seq, Oracle: oracle, Tags: []string{"key-object-reused", "nt"}})
+	}
+	// ONE key object, fresh from a scalar multiplication (Jacobian form, never marshalled), verified
+	// against from eight goroutines at once: the first use of a key is often concurrent (a group key
+	// checked by several request pipelines)
+	{
+		trials := 120
+		if tier == "thorough" {
+			trials = 600
+		}
+		x := new(big.Int).Add(rng.BigBelow(new(big.Int).Sub(q, big.NewInt(2))), big.NewInt(1))
+		const G = 8
+		msgs := make([][]byte, G)
+		sigs := make([][]byte, G)
+		for g := 0; g < G; g++ {
+			msgs[g] = rng.Bytes(1 + rng.Intn(50))
+			sigs[g], _ = bls.Sign(Bn, Sc(Bn.G2(), x, q), msgs[g])
+		}
+		want := PtBytes(Pt(Bn.G2(), x, q))
+		bad := 0
+		first := ""
+		res := hx.Catch(func() string {
+			for tr := 0; tr < trials; tr++ {
+				X := Bn.G2().Point().Mul(Sc(Bn.G2(), x, q), nil)
+				start := make(chan struct{})
+				var wg sync.WaitGroup
+				rej := make([]bool, G)
+				for g := 0; g < G; g++ {
+					wg.Add(1)
+					go func(g int) {
+						defer wg.Done()
+						defer func() {
+							if r := recover(); r != nil {
+								rej[g] = true
+							}
+						}()
+						<-start
+						rej[g] = bls.Verify(Bn, X, append([]byte{}, msgs[g]...), append([]byte{}, sigs[g]...)) != nil
+					}(g)
+				}
+				close(start)
+				wg.Wait()
+				for g := 0; g < G; g++ {
+					if rej[g] {
+						bad++
+						if first == "" {
+							first = fmt.Sprintf("trial %d: a valid signature was rejected", tr)
+						}
+					}
+				}
+				if !bytes.Equal(PtBytes(X), want) {
+					bad++
+					if first == "" {
+						first = fmt.Sprintf("trial %d: the key object no longer encodes the key", tr)
+					}
+				}
+			}
+			return hx.Zi(bad)
+		})
+		oracle := "ok"
+		if res != hx.Zi(0) {
+			oracle = hx.Fail("verify-differs-from-evm", "eight concurrent verifications against one freshly computed key object: "+first+" ("+res+" problems)")
+		}
+		w.Put(hx.Case{Entry: "-", Op: 0, Args: hx.L(hx.Z(x), hx.Zi(trials)), Impl: res, Oracle: oracle, Tags: []string{"key-object-shared-concurrently", "nt"}})
 	}
 	// secret key 0 on both sides: the contract equation holds for the identity key and the identity
 	// signature (the EVM encoding of the G2 identity is four zero words), and for nothing else
